@@ -17,7 +17,7 @@ using namespace verif;
 using namespace c11;
 
 namespace {
-enum { NODE, BACKEND, NOPS };
+enum { NODE, BACKEND, EXITLOOP, NOPS };
 const int kMaxNodes = 12, kMaxDepth = 4;
 const long kBudgetMs = 30000;
 const int kChildEventFd = 100, kChildScenarioFd = 101;
@@ -26,17 +26,21 @@ const unsigned char kMarkRunLoop = 100, kMarkReturned = 101;   // pseudo "kinds"
 TreeSpec *g_spec = nullptr;    // child only
 World *g_world = nullptr;      // child only
 bool g_register_failed = false;
+bool g_exitloop = false;       // child only: the queued task leaves the loop itself (exitLoop()) instead of raising SIGTERM
 bool g_backend = false;        // child only: run through tbox::main::Start()/Stop() instead of Main()
 
 // node <parent> <optional> <namemode> <init> <start>  (as in sub `tree`); node 0 is Main()'s own `apps` module
 // (a plain unnamed Module without hooks) and is implicit.  namemode 3 = the field is removed again from the default
 // config with "-s <path>=null" on the command line.
 // backend : drive the back-end runner instead: tbox::main::Start(argc, argv) and, if it returned true, tbox::main::Stop().
-void decode_spec(const Scenario &s, TreeSpec &t, bool &backend) {
+// exitloop : (front-end runner only) the application leaves the loop itself with Loop::exitLoop() instead of being told to
+//            stop by SIGTERM, so Main() goes straight to apps.cleanup() on a tree that is still running.
+void decode_spec(const Scenario &s, TreeSpec &t, bool &backend, bool *exitloop = nullptr) {
   std::vector<int> depth(1, 0);
   t.nodes.push_back(NodeSpec());
   for (const Op &op : s.ops) {
     if (op.code == BACKEND) backend = true;
+    if (op.code == EXITLOOP && exitloop) *exitloop = true;
     if (op.code != NODE || (int)t.nodes.size() >= kMaxNodes) continue;
     NodeSpec n;
     int cnt = (int)t.nodes.size();
@@ -94,12 +98,12 @@ long cpu_ticks(pid_t pid) {
   return ut + st;
 }
 
-[[noreturn]] void child_main(const TreeSpec &t, bool backend, int wfd) {
+[[noreturn]] void child_main(const TreeSpec &t, bool backend, bool exitloop, int wfd) {
   rt().in_case = false; rt().out_path.clear();    // a dying child must not write case files / statistics
   signal(SIGABRT, SIG_DFL); signal(SIGALRM, SIG_DFL);
   static World w; w.out_fd = wfd;
   static TreeSpec spec = t;
-  g_world = &w; g_spec = &spec; g_backend = backend;
+  g_world = &w; g_spec = &spec; g_backend = backend; g_exitloop = exitloop && !backend;
 
   std::vector<std::string> args = {"c11_main_runner", "-s", "log.stdout.enable=false", "-s", "exit_wait_sec=0"};
   for (int i = (int)t.nodes.size() - 1; i > 0; --i)     // descendants first: a later patch must not re-create a removed object
@@ -121,8 +125,9 @@ long cpu_ticks(pid_t pid) {
 
 std::string run_main(const Scenario &s, CaseInfo &info) {
   TreeSpec t;
-  bool backend = false;
-  decode_spec(s, t, backend);
+  bool backend = false, exitloop = false;
+  decode_spec(s, t, backend, &exitloop);
+  if (backend) exitloop = false;
   // The child is a FRESH process (posix_spawn of this binary, sub `main_child`, scenario through a pipe): a plain
   // fork() of the ASan-instrumented rapidcheck process occasionally left the child's ASan allocator dead-locked
   // (thread start inside the sanitizer runtime waiting for an allocator mutex nobody holds) - a harness artefact.
@@ -228,9 +233,10 @@ std::string run_main(const Scenario &s, CaseInfo &info) {
   }
   apply_flags(o.flags, t, info);
   info.cls_if(backend, "backend_runner_Start_Stop");
+  info.cls_if(exitloop && ran_loop, "Main:app_leaves_loop_itself_cleanup_of_running_tree");
   info.cls_if(init_failed, "Main:apps_init_failed");
   info.cls_if(!init_failed && start_failed, "Main:apps_start_failed");
-  info.cls_if(ran_loop, "Main:ran_loop_and_got_SIGTERM");
+  info.cls_if(ran_loop, "Main:ran_loop");
   if (init_failed || start_failed) info.nontrivial = true;
   (void)any_start;
 
@@ -247,8 +253,8 @@ std::string run_main(const Scenario &s, CaseInfo &info) {
 
 SubDef def_main = [] {
   SubDef d; d.name = "main_runner";
-  d.op_names = {"node", "backend"};
-  d.op_arity = {5, 0};
+  d.op_names = {"node", "backend", "exitloop"};
+  d.op_arity = {5, 0, 0};
   d.nt_rule = "Main() run in which apps.initialize() or apps.start() fails (required module fails / config field removed), or an optional subtree fails half-way";
   d.run = run_main;
 #ifndef VERIF_ENGINE_FUZZ
@@ -260,7 +266,7 @@ SubDef def_main = [] {
     auto nmode = weightedOneOf<int64_t>({{5, just<int64_t>(0)}, {8, just<int64_t>(1)}, {3, just<int64_t>(2)}, {1, just<int64_t>(3)}});
     auto nodeop = [&](int ok, int fail) { return mkop(NODE, {parent, opt, nmode, outc(ok, fail), outc(ok, fail)}); };
     auto nodes = weightedOneOf<std::vector<Op>>({{3, opsOf(nodeop(92, 8))}, {2, opsOf(nodeop(80, 20))}});
-    auto mode = weightedOneOf<std::vector<Op>>({{2, just(std::vector<Op>())}, {1, fixedOps({mkop(BACKEND, {})})}});
+    auto mode = weightedOneOf<std::vector<Op>>({{2, just(std::vector<Op>())}, {1, fixedOps({mkop(BACKEND, {})})}, {1, fixedOps({mkop(EXITLOOP, {})})}});
     return rc::gen::apply([](std::vector<Op> v, std::vector<Op> m) { Scenario s; s.ops = std::move(v); for (auto &o : m) s.ops.push_back(o); return s; }, nodes, mode);
   };
 #endif
@@ -271,13 +277,13 @@ VERIF_REGISTER(&def_main);
 // internal: what the spawned child executes ("--sub main_child --replay /dev/fd/101", events to fd 100); never returns
 SubDef def_child = [] {
   SubDef d; d.name = "main_child";
-  d.op_names = {"node", "backend"};
-  d.op_arity = {5, 0};
+  d.op_names = {"node", "backend", "exitloop"};
+  d.op_arity = {5, 0, 0};
   d.nt_rule = "internal";
   d.run = [](const Scenario &s, CaseInfo &) -> std::string {
-    TreeSpec t; bool backend = false;
-    decode_spec(s, t, backend);
-    child_main(t, backend, kChildEventFd);
+    TreeSpec t; bool backend = false, exitloop = false;
+    decode_spec(s, t, backend, &exitloop);
+    child_main(t, backend, exitloop, kChildEventFd);
   };
 #ifndef VERIF_ENGINE_FUZZ
   d.gen = [] { return rc::gen::just(Scenario()); };
@@ -303,7 +309,7 @@ void RegisterApps(Module &apps, Context &ctx) {
     if (!loop->isRunning()) return;
     unsigned char b[2] = {0, kMarkRunLoop};
     ssize_t n = ::write(g_world->out_fd, b, 2); (void)n;
-    raise(SIGTERM);
+    if (g_exitloop) loop->exitLoop(); else raise(SIGTERM);
   }, "c11::raise_sigterm");
 }
 std::string GetAppDescribe() { return "C11 main_runner harness"; }
